@@ -221,7 +221,7 @@ func init() {
 		ruleCornerTables,
 		ruleEndpointOrder,
 		ruleCompactionIndex(inPkgs("clip/smartclip."), 1),
-		ruleCompose(smartclipSpecs, 6),
+		ruleCompose(concatSpecs(smartclipSpecs, pnpolySpecs), 10),
 	)
 
 	register("C17",
